@@ -464,13 +464,23 @@ def _verify(contract, inst, res, seed, tier):
 
     def body(*arrs):
         a, k = rebuild(leaves, treedef, arr_idx, arrs)
+        PENDING.clear()
         out = fn(*a, **k)
         ol, ot = jax.tree_util.tree_flatten(out)
         out_box["tree"] = ot
         out_box["static"] = [None if _is_arraylike(l) else l for l in ol]
-        return [l for l in ol if _is_arraylike(l)], None
+        marks = list(PENDING)
+        PENDING.clear()
+        out_box["marks"] = [(m[0], m[1], m[2]) for m in marks]
+        res_leaves = [l for l in ol if _is_arraylike(l)]
+        out_box["n_res"] = len(res_leaves)
+        return res_leaves + [jnp.asarray(m[3]) for m in marks], None
 
     outs, _ = _trace_eval(ctx, body, avals, sym)
+    mark_vals = outs[out_box["n_res"] :]
+    outs = outs[: out_box["n_res"]]
+    for (mode, nm, kind), val in zip(out_box["marks"], mark_vals):
+        _emit(ctx, nm, kind, val, as_goal=(mode == "assert"), origin="loop-rule")
     out_tree = out_box["tree"]
     out_static = out_box["static"]
     out_avals = [jax.ShapeDtypeStruct(np.shape(o), _dtype_of(o)) for o in outs]
@@ -703,12 +713,25 @@ def discharge(ctx: interp.Ctx, contract: Contract, res: Result, numenv: NumEnv, 
                 res.samples.append(detail)
         else:
             entry = {"obligation": ob["name"], "kind": ob["kind"], "reason": how, "detail": detail}
-            tri = triage(ob, numenv, seed)
+            tri = triage(ob, numenv, seed, detail=detail)
             entry.update(tri)
             if tri.get("holds_numerically"):
                 res.undecided.append(entry)
             else:
                 res.failed.append(entry)
+    # vacuity guard: the assumptions (requires, contracts, loop hypotheses) must not be contradictory
+    if bool_assm:
+        em = smt.Emitter()
+        asserts = []
+        for a in bool_assm:
+            t = em.bool_term(a["fact"])
+            cond = _path_term(em, a["path"])
+            asserts.append(f"(assert (=> {cond} {t})) ; {a['name']}" if cond else f"(assert {t}) ; {a['name']}")
+        r, dt, _ = smt.run_z3(em.text(asserts), 10.0)
+        res.solver_s["z3"] = res.solver_s.get("z3", 0.0) + dt
+        res.selfcheck["assumptions_satisfiable"] = r
+        if r == "unsat":
+            res.error = "checker-error: the boolean assumptions of this verification unit are contradictory (vacuous proof)"
     # one batched solver query re-checks every certificate of this function instance
     if identities:
         ok, det = _smt_identities(identities, res)
@@ -858,10 +881,34 @@ def _path_term(em, path):
     return ts[0] if len(ts) == 1 else f"(and {' '.join(ts)})"
 
 
-def triage(ob, numenv: NumEnv, seed, npoints=6):
-    """Evaluate a failed goal at random points on the variety (kernel outputs computed natively)."""
+def triage(ob, numenv: NumEnv, seed, npoints=6, detail=None):
+    """Evaluate a failed goal at the solver's counter-model (if any) and at random points on the
+    variety (kernel outputs computed natively)."""
     worst = 0.0
     witness = None
+    model = None
+    if isinstance(detail, dict):
+        model = detail.get("model") or (detail.get("smt") or {}).get("model") if isinstance(detail.get("smt"), dict) or detail.get("model") else None
+    try:
+        if model:
+            arrays = [np.array(a, dtype=np.float64, copy=True) if np.asarray(a).dtype.kind == "f" else np.asarray(a) for a in numenv.point(seed + 5)]
+            hit = False
+            for a, sids in zip(arrays, numenv.in_sids):
+                if sids is None:
+                    continue
+                for ix in np.ndindex(*sids.shape):
+                    key = f"s{int(sids[ix])}"
+                    if key in model and isinstance(model[key], float):
+                        a[ix] = model[key]
+                        hit = True
+            if hit:
+                env = numenv.env_from(arrays, seed)
+                bad = (not numenv.evalb(ob["goal"], env)) if ob["kind"] == "bool" else abs(ob["goal"].p.evalf(env)) > 1e-7
+                if bad and (not ob["path"] or all(numenv.evalb(b, env) for b in ob["path"])):
+                    witness = {"inputs": [np.asarray(a).tolist() for a in arrays], "from": "solver-model"}
+                    return {"numeric_worst": 1.0, "holds_numerically": False, "witness": witness}
+    except Exception as e:
+        pass
     try:
         for k in range(npoints):
             arrays = numenv.point(seed + 77 * (k + 1))
@@ -910,11 +957,14 @@ def _clause_of(obligation_name):
     return nm.split("[")[0]
 
 
-def native_clauses(contract: Contract, inst: Instance, seed):
+def native_clauses(contract: Contract, inst: Instance, seed, inputs=None):
     owner, attr, target = contract.resolve()
     fn = contract.wrap(target) if contract.wrap else target
     rng = np.random.default_rng(seed)
     args, kwargs = inst.make(rng)
+    if inputs is not None:
+        leaves, treedef, arr_idx = split_leaves((args, kwargs))
+        args, kwargs = rebuild(leaves, treedef, arr_idx, [jnp.asarray(np.asarray(x), dtype=np.asarray(leaves[i]).dtype) for x, i in zip(inputs, arr_idx)])
     with _native_mode():
         out = fn(*args, **kwargs)
         cl = contract.ensures(out, *args, **kwargs)
@@ -932,11 +982,20 @@ def confirm_native(contract: Contract, inst: Instance, failure: dict, seed, npoi
     cname = _clause_of(failure["obligation"])
     seeds = []
     w = failure.get("witness")
+    if w and "inputs" in w:
+        seeds.append(("inputs", w["inputs"]))
     if w and "seed" in w:
         seeds.append(int(w["seed"]))
     seeds += [seed + 101 * (k + 1) for k in range(npoints)]
     for s in seeds:
-        clauses, mag, (args, kwargs), out = native_clauses(contract, inst, s)
+        try:
+            if isinstance(s, tuple):
+                clauses, mag, (args, kwargs), out = native_clauses(contract, inst, seed, inputs=s[1])
+                s = "solver-model"
+            else:
+                clauses, mag, (args, kwargs), out = native_clauses(contract, inst, s)
+        except Exception as e:
+            continue
         for nm, kind, val in clauses:
             if nm != cname:
                 continue
@@ -989,3 +1048,123 @@ def replay(path):
         return 1
     print("no failing input reproduced natively (the obligation failed deductively; see verifier_output in the replay file)")
     return 1 if data.get("failed_obligation") else 0
+
+
+# --------------------------------------------------------------------------------------
+# in-trace markers and the loop rules (Hoare rules executed at trace time)
+# --------------------------------------------------------------------------------------
+
+PENDING: list = []  # (mode 'assert'|'assume', name, kind, traced value)
+
+
+def assert_now(prefix, clauses):
+    for c in clauses:
+        v = (jnp.asarray(c.lhs) - c.value) if c.kind == "def" else c.value
+        PENDING.append(("assert", f"{prefix}.{c.name}", "eq" if c.kind == "def" else c.kind, v))
+
+
+def assume_now(prefix, clauses):
+    for c in clauses:
+        v = (jnp.asarray(c.lhs) - c.value) if c.kind == "def" else c.value
+        PENDING.append(("assume", f"{prefix}.{c.name}", "eq" if c.kind == "def" else c.kind, v))
+
+
+def _havoc_handler(ctx, prm, *ops):
+    tag, avals = prm["static"]
+    outs = []
+    for k, (shape, kind) in enumerate(avals):
+        cid = prims._count("havoc")
+        if kind == "b":
+            arr = np.empty(shape, dtype=object)
+            for ix in np.ndindex(*shape):
+                arr[ix] = B("var", f"{tag}.{k}{list(ix)}#{cid}")
+            sids = np.full(shape, -1, dtype=np.int64)
+        else:
+            arr, sids = prims.fresh_array(tuple(shape), f"{tag}.{k}#{cid}", kind="havoc")
+        outs.append(arr)
+        prims.CALL_LOG.append({"name": "havoc", "operands": [], "out_sids": [sids], "native": None})
+    return outs
+
+
+prims.BASE_HANDLERS["havoc"] = _havoc_handler
+_HAVOC_COUNTER = [0]
+
+
+def havoc_like(tree, tag):
+    """Fresh, unconstrained values with the pytree structure / shapes of ``tree``."""
+    tree = jax.tree_util.tree_map(lambda x: jnp.asarray(x, dtype=jnp.float64 if isinstance(x, float) else None) if isinstance(x, (bool, int, float)) else x, tree)
+    leaves, treedef, arr_idx = split_leaves(tree)
+    arrays = [jnp.asarray(leaves[i]) for i in arr_idx]
+    _HAVOC_COUNTER[0] += 1
+    avals = tuple((tuple(a.shape), "b" if a.dtype == jnp.bool_ else "f") for a in arrays)
+    sds = [jax.ShapeDtypeStruct(a.shape, a.dtype) for a in arrays]
+    # the counter makes every havoc distinct (no memoisation across calls)
+    outs = prims.bind_opaque("havoc", [], sds, static=(f"{tag}@{_HAVOC_COUNTER[0]}", avals))
+    return rebuild(leaves, treedef, arr_idx, outs)
+
+
+def _same_tree(prefix, a, b):
+    return [eq(f"{prefix}{k}", x, y) for k, (x, y) in enumerate(zip(jax.tree_util.tree_leaves(a), jax.tree_util.tree_leaves(b)))]
+
+
+def hoare_while(inv, name="loop", keep=None, ghost_init=None, ghost_step=None, expose=None):
+    """Replacement for ``while_loop(cond, body, init)`` implementing the Hoare rule at trace time.
+
+    ``inv(init, state, ghost) -> list[Clause]``.  Emits: Inv(init, init, ghost0); then for an
+    arbitrary state (only the fields not protected by the modifies-clause ``keep`` are arbitrary)
+    with Inv and the guard: one symbolic execution of the *real* body, the frame condition, and
+    Inv of its result with the updated ghost; returns an arbitrary state satisfying Inv and the
+    negated guard.  Termination is not claimed.
+    """
+
+    def while_loop(cond_fun, body_fun, init=None, **kw):
+        if init is None:
+            init = kw.pop("init_val")
+        g0 = ghost_init(init) if ghost_init else None
+        assert_now(f"{name}.inv_init", inv(init, init, g0))
+        s = havoc_like(init, f"{name}.any")
+        if keep:
+            s = keep(init, s)
+        g = havoc_like(g0, f"{name}.ghost") if g0 is not None else None
+        assume_now(f"{name}.hyp", inv(init, s, g))
+        assume_now(f"{name}.hyp", [holds("guard", cond_fun(s))])
+        s1 = body_fun(s)
+        if keep:
+            assert_now(f"{name}.frame", _same_tree("unmodified", keep(init, s1), s1))
+        g1 = ghost_step(init, s, g, s1) if ghost_step else None
+        assert_now(f"{name}.inv_preserved", inv(init, s1, g1))
+        s2 = havoc_like(init, f"{name}.exit")
+        if keep:
+            s2 = keep(init, s2)
+        g2 = havoc_like(g0, f"{name}.ghost_exit") if g0 is not None else None
+        assume_now(f"{name}.exit", inv(init, s2, g2))
+        assume_now(f"{name}.exit", [holds("not_guard", jnp.logical_not(cond_fun(s2)))])
+        if expose is not None:
+            expose(init, s2, g2)
+        return s2
+
+    return while_loop
+
+
+def hoare_scan(inv, name="scan", xs_hyp=None):
+    """Replacement for ``scan(f, init, xs)``: the body is executed once on an arbitrary carry with Inv
+    and an arbitrary element x (optionally constrained by ``xs_hyp(x_prev, x)``); returns an arbitrary
+    carry with Inv and per-step outputs of the one symbolic step stacked ``len(xs)`` times (so shapes
+    are right; contracts about outputs must be stated through the step property, not the stacked value).
+    """
+
+    def scan(step_func, init=None, xs=None, reverse=False, length=None, **kw):
+        assert_now(f"{name}.inv_init", inv(init, init, None))
+        c = havoc_like(init, f"{name}.carry")
+        x0 = jax.tree_util.tree_map(lambda a: a[0], xs)
+        x = havoc_like(x0, f"{name}.x")
+        assume_now(f"{name}.hyp", inv(init, c, x))
+        c1, y = step_func(c, x)
+        assert_now(f"{name}.inv_preserved", inv(init, c1, None, prev=(c, x, y)))
+        c2 = havoc_like(init, f"{name}.final")
+        assume_now(f"{name}.exit", inv(init, c2, None))
+        n = jax.tree_util.tree_leaves(xs)[0].shape[0]
+        ys = jax.tree_util.tree_map(lambda a: jnp.stack([a] * n), y)
+        return c2, ys
+
+    return scan
